@@ -12,6 +12,8 @@ nothing; a registration with a hold time is called exactly at change+ms iff it w
 A second stream (oracle only) checks the Switch device's events: <name>_active/_inactive, tag events,
 events_when_activated with |ms and the ignore window.
 """
+import json
+
 from harness.common import leanproc, mpfleak
 from harness.common.shrink import ddmin
 from harness.common.util import InfraError
@@ -22,9 +24,9 @@ LEAN_MODULES = ["MpfVerif.Props.C03"]
 PROPS_FILE = "MpfVerif/Props/C03.lean"
 GEN = []
 MANIFEST = {
-  "text": "Proof on a Lean model of the switch controller's per-switch state (logical/raw state, last change, registered handlers per state, the insertion-ordered dict of pending hold-time deadlines and the single scheduled wake-up): for every sequence of raw/logical reports, handler registrations and removals, time steps and wake-ups, the logical state is the last reported one (NC inverted for raw reports) and the raw state its inverse image, a duplicate report changes nothing and calls nothing, a change calls exactly the untimed handlers registered for the new state once each in order, the wake-up is always scheduled at the minimum pending deadline and never overdue (so a timed handler is called exactly at change+ms, only while the switch has stayed in that state), and a removed handler is neither registered nor pending and is never called until it is added again. Tied to switch_controller.py by a correspondence run on real machines (NO and NC switches) on every check; Switch device events (activation/tag/timed events, ignore window) are checked by the implementation oracle only.",
+  "text": "Proof on a Lean model of the switch controller's per-switch state (logical/raw state, last change, registered handlers per state, the insertion-ordered dict of pending hold-time deadlines and the single scheduled wake-up): for every sequence of raw/logical reports, handler registrations and removals, time steps and wake-ups, the logical state is the last reported one (NC inverted for raw reports) and the raw state its inverse image, a duplicate report changes nothing and calls nothing, a change calls exactly the untimed handlers registered for the new state once each in order, the wake-up is always scheduled at the minimum pending deadline and never overdue (so a timed handler is called exactly at change+ms, only while the switch has stayed in that state), and a removed handler is neither registered nor pending and is never called until it is added again. A second model covers the Switch device's own events: without an ignore window the configured events (<name>_active/_inactive, tag events, events_when_(de)activated) are posted exactly once per real change in order and never otherwise (events_once; |ms events are timed handlers of the controller model); with ignore_window_ms a change outside a window posts and opens a window ending exactly w later, changes inside it post nothing, the window end is never slept through and posts the current state iff the switch then differs from the state that opened it, so there is one post per window plus the catch-up, and whenever no window is open the last post equals the current state (recycle_window). Both models are tied to switch_controller.py and devices/switch.py by correspondence runs on real machines (NO and NC switches, tags, timed events, ignore window) on every check.",
   "note": "Trusted: Lean kernel + {propext, Quot.sound, Classical.choice}; hand-written Model/Switch.lean validated by differential runs; asyncio timer heap / TimeTravelLoop (time cannot pass a scheduled wake-up: built into the model's `to` step); 1/8 s time grid (floats exact). Handlers that register/remove handlers from inside a switch callback, muted switches, monitors and wait_for_switch futures are not modelled.",
-  "technique": "Lean 4 invariants over all op sequences (induction over the op list) on a hand model + differential correspondence with the real SwitchController + timeline oracle",
+  "technique": "Lean 4 invariants over all op sequences (induction over the op list) on two hand models (controller per switch, Switch device events) + differential correspondence with the real SwitchController/Switch + timeline oracles",
   "translated": False,
 }
 RULE = ("cases: 8-45 ops on 1-3 switches (NO/NC, some initially active): raw/logical reports incl. duplicates, add/remove of "
@@ -37,10 +39,15 @@ TRUSTED = [
     "modelled, not verified: asyncio timer heap / TimeTravelLoop (the scheduled wake-up runs before time passes it; order of "
     "same-instant wake-ups of different switches taken from the implementation), dict insertion order, functools.partial",
     "Model/Switch.lean is hand-written; tied to mpf/core/switch_controller.py by correspondence on every run",
-    "mpf/devices/switch.py event posting and ignore window: executable oracle on the real code only (no theorem)",
+    "the Dev model in Model/Switch.lean is hand-written; tied to mpf/devices/switch.py (_post_events, _post_events_with_recycle, "
+    "_recycle_passed) by correspondence on every run, plus an independent timeline oracle for the posted events",
 ]
 ASSUMPTIONS = ["hold times and report instants are multiples of 125 ms", "switch callbacks do not register/remove switch handlers",
-               "switches are not muted"]
+               "switches are not muted; every configured switch event has a listener (events without one are not posted by design)",
+               "outside C03 (the statement is about the logical state, which is right from start-up): Switch.hw_state is not "
+               "initialised from the hardware - update_switches_from_hw sets only `state`, so an NC switch shows hw_state 0 until "
+               "its first real change (a duplicate first raw report leaves it stale); hw_state is therefore compared only after the "
+               "first change and the model is started from the implementation's initial hw_state"]
 
 TICK = 0.125
 
@@ -116,7 +123,8 @@ def install_wake_logger():
 
 
 class CtlRun:
-    def __init__(self, case):
+    def __init__(self, case, shared=None):
+        """shared = (booted VMachine with switches s0..sN, index of the switch this one-switch case uses)"""
         self.case = case
         self.groups = []
         self.log = []
@@ -125,6 +133,8 @@ class CtlRun:
         self.finished = False
         self.crash = None
         self.wakes = 0
+        self.shared = shared
+        self.base = shared[1] if shared else 0
 
     def tick(self):
         x = (self.vm.now() - self.t0) / TICK
@@ -153,23 +163,28 @@ class CtlRun:
         if self.wakes > 3000:     # a wake-up that re-arms itself at the same instant would spin for ever
             self.finished = True
             raise RuntimeError("runaway: more than 3000 wake-ups in one case")
-        i = int(switch.name[1:])
+        i = int(switch.name[1:]) - self.base
+        if not 0 <= i < len(self.case["sws"]):
+            return                # a switch of an earlier sequence on a shared machine
         self.group(["wake", i])
         self.log.append(("wake", i, self.tick()))
 
     def run(self):
         install_wake_logger()
-        self.vm = VMachine(sw_config(self.case["sws"]))
-        try:
-            self.vm.start()
-        except BootError as e:
-            raise InfraError("C03 machine does not boot: %s" % e)
+        if self.shared is not None:
+            self.vm = self.shared[0]
+        else:
+            self.vm = VMachine(sw_config(self.case["sws"]))
+            try:
+                self.vm.start()
+            except BootError as e:
+                raise InfraError("C03 machine does not boot: %s" % e)
         _wrapped["run"] = self
         try:
             vm = self.vm
             m = vm.machine
             sc = m.switch_controller
-            self.switches = [m.switches["s%d" % i] for i in range(len(self.case["sws"]))]
+            self.switches = [m.switches["s%d" % (self.base + i)] for i in range(len(self.case["sws"]))]
             vm.align()
             self.t0 = vm.now()
             self.initial = [(1 if s.invert else 0, s.state, s.hw_state) for s in self.switches]
@@ -212,7 +227,8 @@ class CtlRun:
         finally:
             self.finished = True
             try:
-                self.vm.stop()        # wake-ups during teardown are dropped by the logger (see install_wake_logger)
+                if self.shared is None:
+                    self.vm.stop()    # wake-ups during teardown are dropped by the logger (see install_wake_logger)
             finally:
                 _wrapped["run"] = None
         return self
@@ -378,9 +394,9 @@ def nontrivial(run):
     return timed and calls
 
 
-def check_case(ctx, case, model, shrink=True):
-    run = CtlRun(case).run()
-    ctx.evaluated(case, nontrivial(run))
+def check_case(ctx, case, model, shrink=True, shared=None, sample=True):
+    run = CtlRun(case, shared).run()
+    ctx.evaluated(case, nontrivial(run), sample=sample)
     for e in run.log:
         if e[0] in ("report", "add", "rm", "q", "wake"):
             ctx.count("op_" + e[0])
@@ -439,6 +455,42 @@ EVENTS = ["s0_active", "s0_inactive", "s1_active", "s1_inactive", "sw_left", "sw
           "sw_both", "sw_both_active", "sw_both_inactive", "a_now", "a_hold2", "d_now", "d_hold3"]
 
 
+CONF = {0: {1: ["s0_active", "sw_left", "sw_left_active", "sw_both", "sw_both_active", "a_now"],
+            0: ["s0_inactive", "sw_left_inactive", "sw_both_inactive", "d_now"]},
+        1: {1: ["s1_active", "sw_both", "sw_both_active"], 0: ["s1_inactive", "sw_both_inactive"]}}
+HOLD = {"a_hold2": "c 901 1 2 %s", "d_hold3": "c 902 0 3 %s"}
+_dw = {}
+
+
+def install_device_logger():
+    """Wrap the Switch device's handler entry points once per process (outermost call only): tells the active run when
+    the controller called the device's handler and when `_recycle_passed` ran."""
+    from mpf.devices.switch import Switch
+    if _dw.get("cls") is Switch:
+        return
+    o_post, o_rec, o_pass = Switch._post_events, Switch._post_events_with_recycle, Switch._recycle_passed
+
+    def wrap(orig, what):
+        def f(self, state):
+            run = _wrapped.get("run")
+            mine = isinstance(run, EventRun) and not run.finished and run.vm is not None and \
+                run.vm.machine is not None and self.machine is run.vm.machine
+            if mine and run.depth == 0:
+                run.on_device(what, self, state)
+            if mine:
+                run.depth += 1
+            try:
+                return orig(self, state)
+            finally:
+                if mine:
+                    run.depth -= 1
+        return f
+    Switch._post_events = wrap(o_post, "handler")
+    Switch._post_events_with_recycle = wrap(o_rec, "handler")
+    Switch._recycle_passed = wrap(o_pass, "pass")
+    _dw["cls"] = Switch
+
+
 class EventRun:
     def __init__(self, case):
         self.case = case
@@ -447,21 +499,42 @@ class EventRun:
         self.crash = None
         self.wakes = 0
         self.vm = None
+        self.depth = 0
+        self.groups = []
 
     def tick(self):
         x = (self.vm.now() - self.t0) / TICK
         return int(x) if x == int(x) else round(x, 6)
+
+    def group(self, head):
+        self.cur = {"head": head, "t": self.tick(), "devcall": None, "events": [], "holds": []}
+        self.groups.append(self.cur)
 
     def on_wake(self, switch):
         self.wakes += 1
         if self.wakes > 3000:
             self.finished = True
             raise RuntimeError("runaway: more than 3000 wake-ups in one case")
+        self.group(["wake", int(switch.name[1:])])
+
+    def on_device(self, what, switch, state):
+        i = int(switch.name[1:])
+        if what == "pass":
+            self.group(["pass", i])
+        else:
+            self.cur["devcall"] = (i, 1 if state else 0)
 
     def handler(self, name):
         def h(**kwargs):
             if not self.finished:
-                self.log.append(("event", name, self.tick()))
+                t = self.tick()
+                self.log.append(("event", name, t))
+                if name in HOLD:
+                    g = [x for x in self.groups if x["head"][0] == "wake"]
+                    (g[-1] if g else self.cur)["holds"].append(HOLD[name] % t)
+                else:
+                    g = [x for x in self.groups if x["head"][0] in ("report", "pass")]
+                    (g[-1] if g else self.cur)["events"].append(name)
                 if len(self.log) > 5000:
                     self.finished = True
                     raise RuntimeError("runaway: more than 5000 events in one case")
@@ -469,6 +542,7 @@ class EventRun:
 
     def run(self):
         install_wake_logger()
+        install_device_logger()
         self.vm = VMachine(EV_CONFIG % (self.case["window"] * 125))
         try:
             self.vm.start()
@@ -482,15 +556,20 @@ class EventRun:
                 m.events.add_handler(e, self.handler(e))
             vm.align()
             self.t0 = vm.now()
-            self.initial = [m.switches["s0"].state, m.switches["s1"].state]
+            self.group(["none"])
+            sws = [m.switches["s0"], m.switches["s1"]]
+            self.initial = [sws[0].state, sws[1].state]
+            self.initial_sw = [(1 if x.invert else 0, x.state, x.hw_state) for x in sws]
             for op in self.case["ops"]:
                 try:
                     t = self.tick()
                     if op[0] == "adv":
                         self.log.append(("adv", t, t + op[1]))
                         vm.advance(op[1] * TICK)
+                        self.group(["none"])
                     else:
                         self.log.append(("report", op[1], op[2], op[3], t))
+                        self.group(["report", op[1], op[2], op[3]])
                         m.switch_controller.process_switch("s%d" % op[1], op[3], logical=(op[2] == "l"))
                         vm.run()
                 except Exception as e:
@@ -504,6 +583,45 @@ class EventRun:
             finally:
                 _wrapped["run"] = None
         return self
+
+
+def classify_post(names, i):
+    names = sorted(names)
+    if not names:
+        return "ok"
+    for st in (0, 1):
+        if names == sorted(CONF[i][st]):
+            return "post %d" % st
+    return "post? " + ",".join(names)
+
+
+def event_model_lines(run):
+    """Lines for the controller model (device handlers are callbacks 900, the |ms events 901/902) and the device model."""
+    w = run.case["window"]
+    out = [("new", "ok")]
+    for inv, st, hw in run.initial_sw:
+        out.append(("sw %d %d %d" % (inv, st, hw), "ok"))
+    for l in ("0 add 1 0 900", "0 add 0 0 900", "0 add 1 2 901", "0 add 0 3 902", "1 add 1 0 900", "1 add 0 0 900",
+              "dev 0 %d" % run.initial[0], "dev %d %d" % (w, run.initial[1])):
+        out.append((l, "ok"))
+    now = 0
+    for g in run.groups:
+        h = g["head"]
+        if g["t"] != now:
+            out.append(("to %s" % g["t"], "ok"))
+            now = g["t"]
+        if h[0] == "report":
+            dc = g["devcall"]
+            out.append(("%d report %s %d" % (h[1], h[2], h[3]), ("c 900 %d 0 %s" % (dc[1], g["t"])) if dc else "ok"))
+            if dc:
+                out.append(("d %d change %d" % dc, classify_post(g["events"], dc[0])))
+            elif g["events"]:
+                out.append(("d %d nothing-expected" % h[1], classify_post(g["events"], h[1])))
+        elif h[0] == "wake":
+            out.append(("%d wake" % h[1], " ".join(g["holds"]) or "ok"))
+        elif h[0] == "pass":
+            out.append(("d %d pass" % h[1], classify_post(g["events"], h[1])))
+    return out
 
 
 def event_oracle(run):
@@ -577,7 +695,7 @@ def event_oracle(run):
     return None
 
 
-def check_event_case(ctx, case, shrink=True):
+def check_event_case(ctx, case, shrink=True, model=None):
     run = EventRun(case).run()
     n_ev = sum(1 for e in run.log if e[0] == "event")
     ctx.evaluated(case, n_ev > 2)
@@ -598,6 +716,10 @@ def check_event_case(ctx, case, shrink=True):
             else:
                 small = case
         ctx.fail(sig, small, detail)
+    if model is not None and not run.crash:
+        lines = event_model_lines(run)
+        got = [model.ask(l) for l, _ in lines]
+        ctx.compare(dict(case, what="switch device events trace", sent=[l for l, _ in lines]), [e for _, e in lines], got)
     return bad
 
 
@@ -617,6 +739,54 @@ CORPUS = [
 ]
 
 
+EXH_NO = [["report", 0, "l", 1], ["report", 0, "l", 0], ["add", 0, 1, 1, 0], ["add", 0, 1, 2, 1], ["rm", 0, 1, 1, 0],
+          ["rm", 0, 1, 2, 1], ["adv", 1], ["adv", 2]]
+EXH_NC = [["report", 0, "r", 1], ["report", 0, "r", 0], ["add", 0, 0, 2, 1], ["add", 0, 1, 1, 0], ["rm", 0, 0, 2, 1],
+          ["adv", 1], ["adv", 2]]
+EXH_NO6 = [["report", 0, "l", 1], ["report", 0, "l", 0], ["add", 0, 1, 2, 1], ["rm", 0, 1, 2, 1], ["adv", 1], ["adv", 2]]
+EXH_SPACES = [(EXH_NO, 5, False), (EXH_NC, 5, True), (EXH_NO6, 6, False)]
+EXH_SWITCHES = 400
+
+
+def exhaustive(ctx, model, spaces=None):
+    """every op sequence of length <= L over an alphabet on ONE switch (hold times of 1 and 2 ticks, advances of 1 and 2
+    ticks), each followed by a 3-tick flush, through oracle and correspondence.  A machine with EXH_SWITCHES switches
+    (even: NO, odd: NC) is shared; every sequence gets a switch nobody has touched."""
+    import itertools
+    vm = None
+    used = {False: 0, True: 0}
+    desc = []
+    cfg = sw_config([{"nc": i % 2 == 1} for i in range(EXH_SWITCHES)])
+    try:
+        for alphabet, maxlen, nc in (spaces or EXH_SPACES):
+            n = 0
+            for L in range(0, maxlen + 1):
+                for seq in itertools.product(alphabet, repeat=L):
+                    if vm is None or used[nc] >= EXH_SWITCHES // 2:
+                        if vm is not None:
+                            vm.stop()
+                            mpfleak.release()
+                        vm = VMachine(cfg)
+                        try:
+                            vm.start()
+                        except BootError as e:
+                            raise InfraError("C03 machine does not boot: %s" % e)
+                        used = {False: 0, True: 0}
+                    idx = 2 * used[nc] + (1 if nc else 0)
+                    used[nc] += 1
+                    case = {"kind": "ctl", "sws": [{"nc": nc}], "ops": [list(o) for o in seq] + [["adv", 3]]}
+                    check_case(ctx, case, model, shared=(vm, idx), sample=False)
+                    n += 1
+            desc.append("all %d op sequences of length <= %d over the %d-op alphabet %s on one %s switch"
+                        % (n, maxlen, len(alphabet), json.dumps(alphabet), "NC" if nc else "NO"))
+    finally:
+        if vm is not None:
+            vm.stop()
+    ctx.exhaustive = True
+    ctx.notes["exhaustive_subspace"] = "; ".join(desc) + " (each sequence followed by a 3-tick advance; a fresh switch per " \
+                                       "sequence on a shared %d-switch machine)" % EXH_SWITCHES
+
+
 def run(ctx):
     model = None if getattr(ctx, "model_unavailable", False) else leanproc.LeanProc(ID)
     try:
@@ -627,9 +797,11 @@ def run(ctx):
             if i % 200 == 199:
                 mpfleak.release()
         for i in range(ctx.n(300, 5000)):
-            check_event_case(ctx, gen_event_case(ctx.rng("ev", i)))
+            check_event_case(ctx, gen_event_case(ctx.rng("ev", i)), model=model)
             if i % 200 == 199:
                 mpfleak.release()
+        if ctx.tier == "thorough" and not ctx.search and not ctx.failures and not ctx.disagreements:
+            exhaustive(ctx, model)
     finally:
         if model is not None:
             model.close()
